@@ -12,6 +12,18 @@ integer so it is within 1/2):
   0 <= alloc_u <= ready_u;  free <= 0 => all zero;  |alloc_u - exact_u| <= 1 for every user (=> a user
   left short sits at the common level, a user above the level gets nothing);
   sum alloc <= max(free,0) + n_users;  sum alloc >= min(free, sum ready) - n_users.
+
+Phase pool ("the free cores" clause: which cores the allocation is computed FOR).  The scheduler's entry point is
+``PoolScheduler.compute_fair_share()``; it decides what "the free cores" of the pool are.  A real ``Pool`` (real
+``InstanceCollectionManager``, real ``InstanceCollectionStats``, real ``PoolScheduler``) is populated with real ``Instance``
+objects in generated states (as loaded from the instances table at driver start: pending / active / inactive / deleted,
+failed_request_count 0..6, current or old INSTANCE_VERSION, free cores from oversubscribed to idle) and then driven through
+generated worker histories by the Instance's / Pool's own methods (incr_failed_request_count, mark_healthy,
+adjust_free_cores_in_memory, activate, deactivate, mark_deleted, Pool.add_instance, Pool.remove_instance).  After every step
+the real ``compute_fair_share()`` is called and its result compared with the exact water-filling of the cores the scheduler
+can *use*: every worker has its own region, and a worker's free cores are usable iff the real ``Pool.get_instance(1,
+[its region])`` -- the only way ``schedule_loop_body`` obtains a worker -- hands out that worker.  The inner post-condition
+above stays attached to ``_compute_fair_share`` during this phase.
 """
 import asyncio
 from fractions import Fraction
@@ -24,17 +36,36 @@ RULE = (
     'the number of users, exactly the total demand, exactly a level at which a user joins/finishes, one more/less than that, surplus, '
     'uniform}. Phase enum: every multiset of up to 3 users over running,ready in {0,1,2,3} x every free in -1..13 (exhaustive). '
     'A case is non-trivial when free > 0 and at least two users have ready demand; distinct by the order type of all '
-    'running / running+ready break-points, the position of the water level among them and the free-cores class.'
+    'running / running+ready break-points, the position of the water level among them and the free-cores class. '
+    'Phase pool: a real Pool with 1..6 real Instance objects (state, failed_request_count, version, free cores generated; one scripted '
+    'scenario per worker class first, then random) driven through 2..8 steps of real worker transitions (request failure, health-check '
+    'answer, job scheduled / unscheduled, activation, deactivation, deletion, removal, new worker, demand change); after every step the '
+    'real compute_fair_share() is compared with the water-filling of the free cores of the workers Pool.get_instance hands out; '
+    'distinct by the multiset of worker classes with free cores, which classes are decisive for the result and the demand class.'
 )
 ASSUMPTIONS = [
     'the Fraction water-filling reference below is max-min fairness as stated in the property',
     'values are non-negative integers below 2^48 mcpu (the SQL returns non-negative BIGINT sums; 2^48 mcpu = 2.8e11 cores)',
     'rounding tolerance = one mcpu per user, as in the statement ("by more than rounding")',
+    'phase pool: "the free cores" are the free cores of the workers that the real Pool.get_instance hands to the scheduler (observed per '
+    'worker through a private region); FakeDB answers the instance-table statements of the Instance methods with success',
+    'phase pool, legitimately unspecified: whether the deficit of an oversubscribed (negative free cores) usable worker is netted against '
+    'the other workers or clamped at 0 -- both ends accepted (interval), observed cases counted in pool_evals_oversubscription_netted',
+    'phase pool, NOT promoted to a verdict (OLD_VERSION_TOLERATED): the unchanged tree counts the free cores of responding active workers of '
+    'an OLD INSTANCE_VERSION although Pool.get_instance never hands them out; observed cases are counted in '
+    'pool_candidate_old_version_free_cores_counted and reported to the lead as a defect candidate',
 ]
 TRUSTED_BASE = ['fractions.Fraction reference water-filling (this file)', 'icontract', 'sortedcontainers (real package)']
 SHARDS = {'quick': 1, 'thorough': 16}
 FLOORS = {'contract_evaluations': 5000, 'users_left_short': 1000, 'users_fully_served': 1000, 'cases_free_nonpositive': 100,
-          'cases_with_ties': 1000, 'cases_rounding_inexact': 200}
+          'cases_with_ties': 1000, 'cases_rounding_inexact': 200,
+          # phase pool: about half of the minima observed over quick seeds 0..4.  "decisive" = counting (dropping) the free cores of
+          # that class of worker would move the total beyond the rounding tolerance, i.e. the evaluation could have shown the defect
+          'pool_evaluations': 6000, 'pool_decisive_unhealthy_worker': 1900, 'pool_decisive_nonactive_worker': 4300,
+          'pool_decisive_removed_worker': 900, 'pool_decisive_usable_worker': 3200,
+          'pool_decisive_usable_worker_with_one_failed_request': 1800, 'pool_decisive_recovered_worker': 320,
+          'pool_evals_oversubscribed_worker': 950, 'pool_evals_old_version_worker': 850,
+          'pool_ops': 10, 'pool_worker_classes': 8, 'pool_scenarios': 12}
 
 
 # ---- reference -----------------------------------------------------------------------------------
@@ -173,6 +204,212 @@ def shape_key(users, free, level):
     return (tuple(sorted((rank[r], rank[r + d]) for r, d in users)), lv, fclass)
 
 
+# ---- phase pool: which cores the allocation is computed for ---------------------------------------
+
+# The unchanged tree sums the free cores of `healthy_instances_by_free_cores`, which contains responding active workers of an
+# OLD instance version although `Pool.get_instance` skips them.  Reported to the lead as a defect candidate; until it is decided
+# (repair or known finding) those cores widen the accepted interval instead of raising `free-cores/old-version-worker-counted`.
+OLD_VERSION_TOLERATED = True
+
+N_REGIONS = 24
+NON_USABLE_CLASSES = ('unhealthy', 'pending', 'inactive', 'deleted', 'removed', 'oldver')
+
+
+def gen_worker(rng, kind):
+    """Initial in-memory record of a worker, as `Instance.from_record` would load it at driver start."""
+    cores = 1000 * rng.choice([1, 2, 4, 8, 16, 16, 16, 32])
+    w = {'state': 'active', 'failed': 0, 'old': False, 'cores': cores, 'free': cores}
+
+    def some_free(lo=1):
+        return rng.choice([cores, cores, max(lo, cores // 2), rng.randrange(lo, cores + 1), min(cores, 250 * rng.randrange(1, cores // 250 + 1))])
+
+    if kind == 'usable0':
+        w['free'] = some_free()
+    elif kind == 'small':  # a nearly full healthy worker: the only real capacity of a scripted scenario
+        w['free'] = min(cores, rng.choice([250, 500, 1000, 1000, 2000, rng.randrange(1, 2001)]))
+    elif kind == 'usable1':
+        w.update(failed=1, free=some_free())
+    elif kind == 'unhealthy2':
+        w.update(failed=2, free=some_free())
+    elif kind == 'unhealthy6':
+        w.update(failed=rng.choice([3, 5, 6, 9]), free=some_free())
+    elif kind == 'pending':
+        w.update(state='pending', free=cores)
+    elif kind == 'inactive':
+        w.update(state='inactive', free=cores, failed=rng.choice([0, 0, 3]))
+    elif kind == 'deleted':
+        w.update(state='deleted', free=cores)
+    elif kind == 'oldver':
+        w.update(old=True, free=some_free(), failed=rng.choice([0, 0, 0, 1, 2]))
+    elif kind == 'oversub':
+        w.update(free=-rng.choice([250, 1000, 2000, rng.randrange(1, 4001)]), failed=rng.choice([0, 0, 1]))
+    elif kind == 'full':
+        w.update(free=0)
+    else:
+        raise AssertionError(kind)
+    return w
+
+
+# scripted scenarios: (initial worker kinds, steps).  A step is (op, worker index, argument); worker 0 is the small healthy worker.
+SCENARIOS = [
+    ('two-failed-requests', ['small', 'usable0'], [('fail', 1, None), ('fail', 1, None), ('heal', 1, None)]),
+    ('failed-once-then-again', ['small', 'usable1'], [('fail', 1, None), ('users', None, None), ('heal', 1, None)]),
+    ('loaded-unhealthy', ['small', 'unhealthy2'], [('users', None, None), ('fail', 1, None), ('heal', 1, None)]),
+    ('loaded-very-unhealthy', ['small', 'unhealthy6'], [('unschedule', 1, None), ('heal', 1, None)]),
+    ('job-ends-on-unhealthy', ['small', 'usable0'], [('schedule', 1, None), ('fail', 1, None), ('fail', 1, None), ('unschedule', 1, None)]),
+    ('pending-then-active', ['small', 'pending'], [('activate', 1, None), ('fail', 1, None), ('fail', 1, None)]),
+    ('deactivated', ['small', 'usable0'], [('schedule', 1, None), ('deactivate', 1, None), ('delete', 1, None), ('remove', 1, None)]),
+    ('loaded-inactive-deleted', ['small', 'inactive', 'deleted'], [('users', None, None), ('remove', 2, None)]),
+    ('removed-while-healthy', ['small', 'usable0'], [('remove', 1, None)]),
+    ('new-worker', ['small'], [('add', None, None), ('activate', 1, None), ('schedule', 1, None), ('fail', 1, None), ('fail', 1, None)]),
+    ('old-version', ['small', 'oldver'], [('users', None, None)]),
+    ('oversubscribed', ['small', 'oversub'], [('unschedule', 1, None), ('unschedule', 1, None)]),
+    ('only-unhealthy', ['unhealthy2', 'unhealthy6'], [('heal', 0, None), ('fail', 0, None), ('fail', 0, None)]),
+    ('one-failure-stays-usable', ['small', 'usable0', 'usable0'], [('fail', 1, None), ('fail', 2, None), ('fail', 2, None)]),
+]
+RANDOM_KINDS = ['usable0', 'usable0', 'usable0', 'small', 'usable1', 'usable1', 'unhealthy2', 'unhealthy6', 'pending', 'inactive',
+                'deleted', 'oldver', 'oversub', 'full']
+RANDOM_OPS = ['fail', 'fail', 'fail', 'heal', 'heal', 'schedule', 'unschedule', 'activate', 'deactivate', 'delete', 'remove', 'add', 'users']
+
+
+def gen_pool_users(rng, capacity, mode=None):
+    n = rng.choice([1, 2, 2, 2, 3, 3, 4, 5, 6])
+    mode = mode or rng.choice(['scarce', 'scarce', 'scarce', 'mixed', 'plenty'])
+    users = []
+    for _ in range(n):
+        r = rng.choice([0, 0, 250 * rng.randrange(0, 64), rng.randrange(0, 20_000)])
+        if mode == 'scarce':
+            d = rng.randrange(capacity // n + 1, 2 * capacity + 2002)
+        elif mode == 'mixed':
+            d = rng.choice([0, 250 * rng.randrange(0, 40), rng.randrange(0, capacity + 1), rng.randrange(0, 2 * capacity + 1)])
+        else:
+            d = rng.randrange(0, 500)
+        if r == 0 and d == 0:
+            d = 1 + rng.randrange(0, 1000)
+        users.append((r, d))
+    return users, mode
+
+
+def gen_pool_case(rng, i):
+    if i < len(SCENARIOS):
+        name, kinds, steps = SCENARIOS[i]
+        workers = [gen_worker(rng, k) for k in kinds]
+        if kinds[-1] != 'small':
+            big = max(workers[1:] or workers, key=lambda w: w['cores'])
+            if big['cores'] < 8000:  # the interesting worker is large compared with the real capacity
+                scale = 16000 // big['cores']
+                big['cores'] *= scale
+                big['free'] *= scale
+        mode = 'scarce'
+    else:
+        name = 'random'
+        workers = [gen_worker(rng, rng.choice(RANDOM_KINDS)) for _ in range(rng.choice([1, 2, 2, 3, 3, 4, 5, 6]))]
+        steps = [(rng.choice(RANDOM_OPS), rng.randrange(0, 8), None) for _ in range(rng.randrange(2, 9))]
+        mode = None
+    return {'scenario': name, 'workers': workers, 'steps': steps, 'user_mode': mode}
+
+
+def worker_class(rec):
+    """rec: observed facts of one worker (read off the real Instance and the real Pool after a step)."""
+    if not rec['in_pool']:
+        return 'removed'
+    if rec['handed_out']:
+        return 'usable1' if rec['failed'] == 1 else 'usable0'
+    if rec['state'] != 'active':
+        return rec['state']
+    if rec['failed'] >= 2:
+        return 'unhealthy'
+    if rec['old']:
+        return 'oldver'
+    if rec['free'] < 0:
+        return 'oversub'
+    if rec['free'] == 0:
+        return 'full'
+    return 'not-handed-out'  # responding active current-version worker with free cores that get_instance does not return
+
+
+def pool_bounds(recs):
+    """[F_lo, F_hi]: the cores the scheduler can place jobs on.  Strict and (old version tolerated) extended interval."""
+    usable = sum(r['free'] for r in recs if r['class'] in ('usable0', 'usable1'))
+    deficit = sum(-r['free'] for r in recs if r['class'] == 'oversub')
+    old_pos = sum(r['free'] for r in recs if r['class'] == 'oldver' and r['free'] > 0)
+    old_neg = sum(-r['free'] for r in recs if r['class'] == 'oldver' and r['free'] < 0)
+    strict = (max(usable - deficit, 0), usable)
+    ext = (max(usable - deficit - old_neg, 0), usable + old_pos) if OLD_VERSION_TOLERATED else strict
+    return strict, ext
+
+
+def outside(users, got, lo, hi):
+    """('over' | 'under' | None, text): is the allocation outside the water-fillings of every F in [lo, hi] (one mcpu per user of rounding)?"""
+    n = len(users)
+    total = sum(got)
+    demand = sum(d for _, d in users)
+    _, ex_lo = reference(users, lo)
+    _, ex_hi = reference(users, hi)
+    if total > hi + n:
+        return 'over', f'sum of allocations {total} > {hi} usable free cores + {n} users of rounding'
+    for i, ((r, d), a, e) in enumerate(zip(users, got, ex_hi)):
+        if a > e + 1:
+            return 'over', f'user {i} (running {r}, ready {d}) allocated {a}; max-min fair share of the {hi} usable free cores is {float(e):.3f}'
+    if total < min(lo, demand) - n:
+        return 'under', f'sum of allocations {total} < min(usable free cores {lo}, demand {demand}) - {n} users of rounding'
+    for i, ((r, d), a, e) in enumerate(zip(users, got, ex_lo)):
+        if a < e - 1:
+            return 'under', f'user {i} (running {r}, ready {d}) allocated {a}; max-min fair share of the {lo} usable free cores is {float(e):.3f}'
+    return None, ''
+
+
+def pool_oracle(users, got, recs, inner_free):
+    """Returns (problems, candidate) -- problems: list of (key, text); candidate: text when only the old-version tolerance saves the result."""
+    problems = []
+    for i, ((r, d), a) in enumerate(zip(users, got)):
+        if not isinstance(a, int) or isinstance(a, bool):
+            return [('alloc/not-an-integer', f'user {i}: allocated {a!r}')], None
+        if a < 0:
+            problems.append(('alloc/negative', f'user {i} (running {r}, ready {d}) allocated {a}'))
+        if a > d:
+            problems.append(('alloc/exceeds-ready', f'user {i} (running {r}, ready {d}) allocated {a} > ready'))
+    strict, ext = pool_bounds(recs)
+    side, text = outside(users, got, *ext)
+    candidate = None
+    if side is None:
+        s_side, s_text = outside(users, got, *strict)
+        if s_side is not None:
+            candidate = s_text
+        return problems, candidate
+    by_class = {}
+    for r in recs:
+        if r['free'] > 0:
+            by_class[r['class']] = by_class.get(r['class'], 0) + r['free']
+    if side == 'over':
+        suspects = {c: v for c, v in by_class.items() if c in NON_USABLE_CLASSES and not (c == 'oldver' and OLD_VERSION_TOLERATED)}
+        group = {'unhealthy': 'unhealthy', 'pending': 'non-active', 'inactive': 'non-active', 'deleted': 'non-active',
+                 'removed': 'removed', 'oldver': 'old-version'}
+        neutral = {'oversub'} | ({'oldver'} if OLD_VERSION_TOLERATED else set())
+        found = set()
+        items = [(r['class'], r['free']) for r in recs if r['free'] != 0 and (r['class'] in NON_USABLE_CLASSES or r['class'] == 'oversub')]
+        if inner_free is not None and len(items) <= 12:
+            # which workers' free cores make up the figure that was given to _compute_fair_share?  (all explanations)
+            target = inner_free - strict[1]
+            for mask in range(1, 1 << len(items)):
+                chosen = [items[j] for j in range(len(items)) if mask >> j & 1]
+                if sum(v for _, v in chosen) == target:
+                    found.add(frozenset(group[c] for c, _ in chosen if c not in neutral))
+            found.discard(frozenset())
+        elif len(suspects) == 1:
+            found.add(frozenset(group[c] for c in suspects))
+        cls = next(iter(next(iter(found)))) if len(found) == 1 and len(next(iter(found))) == 1 else None
+        key = f'free-cores/{cls}-worker-counted' if cls else 'free-cores/exceeds-usable'
+        problems.append((key, text + f' (free cores of workers the pool does not hand out, by class: {suspects})'))
+    else:
+        once = by_class.get('usable1', 0)
+        key = 'free-cores/below-usable'
+        if once and inner_free is not None and inner_free == ext[1] - once:
+            key = 'free-cores/worker-with-one-failed-request-not-counted'
+        problems.append((key, text + f' (free cores of the workers the pool hands out, by class: { {c: v for c, v in by_class.items() if c.startswith("usable")} })'))
+    return problems, candidate
+
+
 # ---- run -----------------------------------------------------------------------------------------
 
 def run(ctx):
@@ -203,6 +440,22 @@ def run(ctx):
 
         select_and_fetchall = execute_and_fetchall
 
+        # instance-table statements issued by the real Instance / Pool methods in phase pool: all succeed
+        async def execute_update(self, sql, args=None, query_name=None):
+            assert 'instances' in sql, sql
+            return 1
+
+        async def just_execute(self, sql, args=None):
+            assert 'instances' in sql, sql
+
+        async def check_call_procedure(self, sql, args=None, query_name=None):
+            assert 'activate_instance' in sql, sql
+            return {'rc': 0, 'token': 'verif-token'}
+
+        async def execute_and_fetchone(self, sql, args=None, query_name=None):
+            assert 'deactivate_instance' in sql or 'mark_instance_deleted' in sql, sql
+            return {'rc': 0}
+
     class FakePool:
         name = 'pool-under-test'
 
@@ -216,6 +469,8 @@ def run(ctx):
     def post(self, free_cores_mcpu, result):
         users = state['users']
         ctx.count('contract_evaluations')
+        state['inner_free'] = free_cores_mcpu
+        state['inner_calls'] = state.get('inner_calls', 0) + 1
         if set(result.keys()) != {f'u{i}' for i in range(len(users))}:
             state['problems'] = [('result/wrong-user-set', f'result has users {sorted(result)} for {len(users)} input users')]
             return False
@@ -292,7 +547,283 @@ def run(ctx):
     for i, rng in ctx.cases(N, 'random'):
         users, free, fm = gen_case(rng)
         evaluate(users, free, fm)
-    loop.close()
+
+    # ---- phase pool: the scheduler's entry point over a real pool of real workers -------------------
+    try:
+        run_pool_phase(ctx, g, pool_mod, checked, FakeDB, state, loop)
+    finally:
+        loop.close()
+
+
+def run_pool_phase(ctx, g, pool_mod, checked, FakeDB, state, loop):
+    import icontract
+    from gear import CommonAiohttpAppKeys
+    from hailtop.utils import Notice
+
+    from vf.harness import Inconclusive
+
+    base_mod = g.import_tolerant('batch.driver.instance_collection.base')
+    inst_mod = g.import_tolerant('batch.driver.instance')
+    V = g.import_tolerant('batch.globals').INSTANCE_VERSION
+    Instance = inst_mod.Instance
+    PoolScheduler = pool_mod.PoolScheduler
+    regions = [f'region{i}' for i in range(N_REGIONS)]
+
+    class Discard:
+        """the pool's and the scheduler's own infinite loops are never started"""
+
+        def ensure_future(self, coro):
+            if asyncio.iscoroutine(coro):
+                coro.close()
+
+    class RegionIsLocation:
+        def region_for(self, location):
+            return location
+
+    clock = {'now': 1_000_000}
+
+    def tick():
+        clock['now'] += 10_000  # every health-check answer is "later than 5 s after the last update"
+        return clock['now']
+
+    class World:
+        def __init__(self, case, rng):
+            self.rng = rng
+            self.db = FakeDB()
+            self.app = {'db': self.db, CommonAiohttpAppKeys.CLIENT_SESSION: None, 'frozen': False,
+                        'scheduler_state_changed': Notice(), 'regions': {r: i + 1 for i, r in enumerate(regions)}}
+            icm = base_mod.InstanceCollectionManager(self.db, 'batch-worker-verif-', None, regions[0], regions)
+            cfg = g.make_pool_config('pool-under-test', 'gcp', 'standard', 16, True, '', True)
+            self.pool = pool_mod.Pool(self.app, self.db, icm, None, 'batch-worker-verif-', cfg, None, Discard())
+            if type(self.pool.scheduler) is not PoolScheduler:
+                raise Inconclusive('Pool no longer owns a PoolScheduler')
+            self.workers = []
+            self.ever_unhealthy = set()
+            self.history = []
+            for w in case['workers']:
+                self.add(w)
+            self.capacity = sum(w['cores'] for w in case['workers']) or 16000
+            self.users, self.user_mode = gen_pool_users(rng, self.capacity, case['user_mode'])
+
+        def add(self, w):
+            i = len(self.workers)
+            if i >= N_REGIONS:
+                return None
+            inst = Instance(self.app, self.pool, f'batch-worker-verif-pool-under-test-w{i}', w['state'], w['cores'], w['free'], 0,
+                            w['failed'], 0, f'10.0.0.{i + 1}', V - 1 if w['old'] else V, regions[i], 'n1-standard-16', True,
+                            RegionIsLocation())
+            self.pool.add_instance(inst)
+            self.workers.append(inst)
+            return inst
+
+        def in_pool(self, w):
+            return self.pool.name_instance.get(w.name) is w
+
+        async def step(self, op, wi):
+            """one admissible worker transition through the real methods; returns the op performed (or None)"""
+            rng = self.rng
+            if op == 'users':
+                self.users, self.user_mode = gen_pool_users(rng, self.capacity, rng.choice([self.user_mode, self.user_mode, None]))
+                return 'users'
+            if op == 'add':
+                kind = rng.choice(['pending', 'pending', 'usable0'])  # a created worker / one found in the table by a restarted driver
+                return 'add' if self.add(gen_worker(rng, kind)) is not None else None
+            live = [w for w in self.workers if self.in_pool(w)]
+            if not live:
+                return None
+            w = live[wi % len(live)]
+            if op in ('fail', 'heal', 'schedule', 'unschedule') and w.state != 'active':
+                active = [x for x in live if x.state == 'active']
+                if not active:
+                    return None
+                w = active[wi % len(active)]
+            name = w.name.rsplit('-', 1)[1]
+            if op == 'fail':  # a failed /healthcheck or job POST
+                await w.incr_failed_request_count()
+            elif op == 'heal':  # the worker answers a health check
+                before = w.failed_request_count
+                await w.mark_healthy()
+                if before >= 2:
+                    op = 'heal-unhealthy'
+            elif op == 'schedule':  # a job is placed (only possible on a worker the pool hands out; a race may oversubscribe it)
+                if self.pool.get_instance(1, [w.region]) is not w:
+                    return None
+                c = rng.choice([250, 500, 1000, 2000, 4000, 8000])
+                if c > w.free_cores_mcpu and rng.random() < 0.8:
+                    c = rng.randrange(1, w.free_cores_mcpu + 1)
+                w.adjust_free_cores_in_memory(-c)
+                op = 'schedule-oversubscribing' if w.free_cores_mcpu < 0 else 'schedule'
+            elif op == 'unschedule':  # a job ends / is unscheduled, also on a worker that does not answer
+                used = w.cores_mcpu - w.free_cores_mcpu
+                if used <= 0:
+                    return None
+                w.adjust_free_cores_in_memory(rng.choice([used, used, rng.randrange(1, used + 1)]))
+                if w.failed_request_count >= 2:
+                    op = 'unschedule-on-unhealthy'
+            elif op == 'activate':
+                pending = [x for x in live if x.state == 'pending']
+                if not pending:
+                    return None
+                w = pending[wi % len(pending)]
+                name = w.name.rsplit('-', 1)[1]
+                await w.activate(w.ip_address, tick())
+            elif op == 'deactivate':
+                if w.state not in ('pending', 'active'):
+                    return None
+                await w.deactivate('verif', tick())
+            elif op == 'delete':
+                if w.state == 'deleted':
+                    return None
+                await w.mark_deleted('verif', tick())
+            elif op == 'remove':
+                await self.pool.remove_instance(w, 'verif', tick())
+            else:
+                raise AssertionError(op)
+            self.history.append((op, name))
+            return op
+
+        def observe(self):
+            recs = []
+            for w in self.workers:
+                inp = self.in_pool(w)
+                rec = {'name': w.name.rsplit('-', 1)[1], 'in_pool': inp, 'state': w.state, 'failed': w.failed_request_count,
+                       'old': w.version != V, 'free': w.free_cores_mcpu, 'cores': w.cores_mcpu,
+                       'handed_out': inp and self.pool.get_instance(1, [w.region]) is w}
+                rec['class'] = worker_class(rec)
+                if rec['class'] == 'unhealthy':
+                    self.ever_unhealthy.add(rec['name'])
+                rec['recovered'] = rec['handed_out'] and rec['name'] in self.ever_unhealthy
+                recs.append(rec)
+            return recs
+
+    def rows_of(users):
+        return [
+            {'user': f'u{i}', 'n_ready_jobs': (1 if d else 0), 'ready_cores_mcpu': d,
+             'n_running_jobs': (1 if r or not d else 0), 'running_cores_mcpu': r}
+            for i, (r, d) in enumerate(users)
+        ]
+
+    async def pool_eval(world, case, op):
+        users = list(world.users)
+        recs = world.observe()
+        world.db.rows = rows_of(users)
+        state.update(problems=None, users=users, got=None, inner_free=None, inner_calls=0)
+        witness = {'scenario': case['scenario'], 'history': list(world.history), 'workers': recs, 'users_running_ready': users}
+        q0 = world.db.queries
+        result = None
+        try:
+            result = await world.pool.scheduler.compute_fair_share()
+        except icontract.ViolationError:
+            pass
+        except Exception as e:  # noqa: BLE001
+            ctx.violation('raises', f'compute_fair_share raised {e!r}', witness)
+            ctx.case(sample=witness, key=('pool-raise', repr(e)[:40]), nontrivial=True)
+            return
+        if world.db.queries != q0 + 1:
+            raise Inconclusive('phase pool: the fake db was not queried exactly once by compute_fair_share')
+        if world.observe() != recs:
+            raise Inconclusive('phase pool: compute_fair_share changed the workers')
+        ctx.count('pool_evaluations')
+        if state['inner_calls']:
+            ctx.count('pool_inner_contract_evaluations')
+        inner_free = state['inner_free'] if state['inner_calls'] == 1 else None
+        if result is not None:
+            if set(result.keys()) != {f'u{i}' for i in range(len(users))}:
+                ctx.violation('result/wrong-user-set', f'result has users {sorted(result)} for {len(users)} input users', witness)
+                return
+            got = [result[f'u{i}'].get('allocated_cores_mcpu') for i in range(len(users))]
+        else:
+            got = state['got']
+        strict, ext = pool_bounds(recs)
+        witness.update(allocated=got, usable_free_cores_interval=list(strict), free_cores_given_to__compute_fair_share=inner_free)
+        if OLD_VERSION_TOLERATED and ext != strict:
+            witness['interval_with_old_version_workers'] = list(ext)
+        for key, text in state['problems'] or []:  # the inner post-condition (allocation vs the free cores it was given)
+            ctx.violation(key, text, witness)
+        n = len(users)
+        demand = sum(d for _, d in users)
+        if got is not None:
+            problems, candidate = pool_oracle(users, got, recs, inner_free)
+            # a wrong allocation of a RIGHT figure is the inner post-condition's finding (reported above), not a free-cores one
+            figure_ok = inner_free is not None and ext[0] <= max(inner_free, 0) <= ext[1]
+            for key, text in problems:
+                if any(key == k for k, _ in state['problems'] or []):
+                    continue
+                if key.startswith('free-cores/') and figure_ok and state['problems']:
+                    continue
+                ctx.violation(key, text, witness)
+            if candidate is not None:
+                ctx.count('pool_candidate_old_version_free_cores_counted' if any(r['class'] == 'oldver' and r['free'] > 0 for r in recs)
+                          else 'pool_candidate_old_version_deficit_netted')
+                if len(ctx.notes.get('pool_candidate_samples', ())) < 3:
+                    ctx.seen('pool_candidate_samples', candidate[:200])
+            if sum(got) < min(strict[1], demand) - n and sum(got) >= min(ext[0], demand) - n:
+                ctx.count('pool_evals_oversubscription_netted')
+
+        # ---- what this evaluation could have shown (decisive = counting / dropping the class moves the total beyond rounding)
+        free_by_class = {}
+        for r in recs:
+            if r['free'] > 0:
+                free_by_class[r['class']] = free_by_class.get(r['class'], 0) + r['free']
+            ctx.seen('pool_worker_classes', r['class'])
+        decisive = []
+        for cls in NON_USABLE_CLASSES:
+            extra = free_by_class.get(cls, 0)
+            if cls == 'oldver' and OLD_VERSION_TOLERATED:
+                continue
+            if extra and min(demand, ext[1] + extra) - ext[1] > n:
+                decisive.append(cls)
+        for cls in ('usable0', 'usable1'):
+            have = free_by_class.get(cls, 0)
+            if have and min(ext[0], demand) - n > min(demand, max(strict[1] - have, 0)):
+                decisive.append(cls)
+        recovered = sum(r['free'] for r in recs if r['recovered'] and r['free'] > 0)
+        if recovered and min(ext[0], demand) - n > min(demand, max(strict[1] - recovered, 0)):
+            decisive.append('recovered')
+        for cls in decisive:
+            ctx.count('pool_decisive_' + {'unhealthy': 'unhealthy_worker', 'pending': 'nonactive_worker', 'inactive': 'nonactive_worker',
+                                          'deleted': 'nonactive_worker', 'removed': 'removed_worker', 'oldver': 'old_version_worker',
+                                          'usable0': 'usable_worker', 'usable1': 'usable_worker_with_one_failed_request',
+                                          'recovered': 'recovered_worker'}[cls])
+        if any(r['class'] == 'oversub' for r in recs):
+            ctx.count('pool_evals_oversubscribed_worker')
+        if any(r['class'] == 'oldver' for r in recs):
+            ctx.count('pool_evals_old_version_worker')
+        if any(r['class'] == 'not-handed-out' for r in recs):
+            ctx.count('pool_evals_responding_worker_not_handed_out')
+        scarce = demand > ext[1] + n
+        if scarce:
+            ctx.count('pool_evals_demand_exceeds_usable')
+        if ext[1] == 0:
+            ctx.count('pool_evals_nothing_usable')
+        if op is not None:
+            ctx.seen('pool_ops', op)
+        ctx.seen('pool_scenarios', case['scenario'])
+        key = ('pool', tuple(sorted(free_by_class)), tuple(sorted(set(decisive))), 'scarce' if scarce else 'plenty',
+               min(3, sum(1 for _, d in users if d > 0)), ext[1] == 0)
+        nontrivial = scarce and ext[1] > 0 and sum(1 for _, d in users if d > 0) >= 2
+        ctx.case(sample={k: witness[k] for k in ('scenario', 'history', 'workers', 'users_running_ready', 'allocated', 'usable_free_cores_interval')},
+                 key=key, nontrivial=nontrivial)
+
+    async def run_case(case, rng):
+        world = World(case, rng)
+        await pool_eval(world, case, None)
+        for op, wi, _ in case['steps']:
+            done = await world.step(op, rng.randrange(0, 8) if wi is None else wi)
+            if done is not None:
+                await pool_eval(world, case, done)
+
+    saved = (PoolScheduler._compute_fair_share, inst_mod.time_msecs)
+    PoolScheduler._compute_fair_share = checked  # the inner post-condition stays on while the wrapper is exercised
+    inst_mod.time_msecs = lambda: tick()
+    try:
+        N = ctx.pick(2_500, 6_000)
+        for i, rng in ctx.cases(N, 'pool'):
+            case = gen_pool_case(rng, i)
+            ctx.count('pool_cases')
+            loop.run_until_complete(run_case(case, rng))
+    finally:
+        PoolScheduler._compute_fair_share, inst_mod.time_msecs = saved
 
 
 BREAKS = """
@@ -311,4 +842,16 @@ Breaks applied one at a time to batch/batch/driver/instance_collection/pool.py i
           lowest total)                                        caught: level/user-above-water-level, level/user-below-water-level
   own, subtle  `free_cores_mcpu -= allocation - mark` (forgets the number of allocating users; needs >= 2
           allocating users and a later step)                   caught: total/exceeds-free, level/user-above-level-served
+
+Phase pool (wave 9, the "free cores" clause; breaks applied to PoolScheduler.compute_fair_share, quick tier):
+  seeded C11-agent8  free cores from current_worker_version_stats.active_schedulable_free_cores_mcpu (counts active workers that
+          failed >= 2 requests)                                caught: free-cores/unhealthy-worker-counted, free-cores/exceeds-usable
+  own     only workers with failed_request_count == 0          caught: free-cores/worker-with-one-failed-request-not-counted, free-cores/below-usable
+  own     sum(live_free_cores_mcpu_by_region.values()) (pending + active)
+                                                               caught: free-cores/non-active-worker-counted, free-cores/unhealthy-worker-counted
+  own     every name_instance worker with state == 'active'    caught: free-cores/unhealthy-worker-counted, free-cores/below-usable
+  own     figure cached until the number of healthy workers changes   caught: free-cores/exceeds-usable, free-cores/below-usable (+ coincidental class keys)
+  by design NOT caught: free_cores_mcpu_nonnegative instead of free_cores_mcpu (clamping an oversubscribed worker is inside the accepted
+          interval); changing the health threshold in Pool.adjust_for_add_instance (then get_instance hands the worker out: usable).
+  unchanged tree with OLD_VERSION_TOLERATED = False: free-cores/old-version-worker-counted (defect candidate, reported to the lead).
 """
